@@ -12,6 +12,9 @@ A step is one of
     ["settag", target, tag, value]     line.set(tag, value)
     ["deltag", target, tag]            line.delete(tag)
     ["setfield", target, field, value] line.set(field, value)          (illegal edits of connected lines, C08)
+Dropping the identifier of an ID-tagged L/C line (optional generator feature "dropid") is written with the existing
+step forms:  ["deltag", t, "ID"]  line.delete("ID");  ["settag", t, "ID", None]  line.set("ID", None);
+["setfield", t, "name", None]  line.set("name", None) (what `line.name = None` does).
 where target is an identifier ("A") or "@RT:idx" (idx-th non-virtual line of that record type, modulo the
 number of such lines).
 
@@ -449,6 +452,8 @@ class TextModel:
         r = self.recs[i]
         old = rec_id(r, v)
         ids = self.ids()
+        if new is None:
+            return self.dropid(i)
         if not re.match("^%s$" % _N, new):
             return "ambiguous:odd-name"
         if new in ids and ids[new] != i:
@@ -467,10 +472,22 @@ class TextModel:
         self.recs = [subst(x, v, old, new) for x in self.recs]
         return "ok"
 
+    def dropid(self, i):
+        """the ID tag of an L/C record is dropped (the record stays, anonymous); the state follows, but callers that
+        compare stop: what else the loss of the identifier means is not pinned down"""
+        r = self.recs[i]
+        if r[0] not in "LC":
+            return "ambiguous:drop-name"
+        n = npos(r, self.v)
+        r[n:] = [t for t in r[n:] if t[:2] != "ID"]
+        return "ambiguous:delete-id-tag"
+
     def settag(self, i, tag, val):
         r = self.recs[i]
         if r[0] in "H#":
             return "ambiguous:tag-on-header"
+        if val is None:
+            return self.deltag(i, tag)
         if not re.match(r"^[A-Za-z][A-Za-z0-9]$", tag):
             return "illegal:tagname"
         t = "%s:i:%d" % (tag, val) if isinstance(val, int) else "%s:Z:%s" % (tag, val)
@@ -490,7 +507,7 @@ class TextModel:
             return "ambiguous:tag-on-header"
         n = npos(r, self.v)
         if tag == "ID" and r[0] in "LC":
-            return "ambiguous:delete-id-tag"
+            return self.dropid(i)
         r[n:] = [t for t in r[n:] if t[:2] != tag]
         return "ok"
 
@@ -514,6 +531,8 @@ class TextModel:
         if op == "deltag":
             return self.deltag(i, step[2])
         if op == "setfield":
+            if step[2] in ("name", "ID") and step[3] is None and self.recs[i][0] in "LC":
+                return self.dropid(i)
             return "illegal:readonly-field"
         return "ambiguous:unknown-op"
 
@@ -606,6 +625,12 @@ def _gen_path(rng, m, prof):
     return ",".join(a + o for a, o in walk), ovl
 
 
+def unnamed_recs(m):
+    """records that may legally occur twice with the same text (no identifier of their own)"""
+    return [r for r in m.recs if (r[0] in "EGOU" and r[1] == "*") or r[0] == "F" or
+            (r[0] == "C" and rec_id(r, m.v) is None)]
+
+
 def gen_add(rng, m, prof):
     """-> (text, label) of an addition meant to be legal in the model's current state (None if none found)"""
     v = m.v
@@ -614,6 +639,13 @@ def gen_add(rng, m, prof):
         w = {"S": 30 if nseg < 3 else 10, "L": 30, "C": 10, "P": 16, "H": 4, "#": 3}
     else:
         w = {"S": 30 if nseg < 3 else 10, "E": 24, "G": 10, "F": 6, "O": 14, "U": 14, "H": 4, "#": 3}
+    if prof.get("copy") and rng.chance(prof["copy"]):
+        # optional (default off): a second line with exactly the text of a stored line that carries no identifier
+        # (only record types without a mandatory unique name can be repeated: E/G/O/U '*', F, C without ID)
+        un = unnamed_recs(m)
+        if un:
+            r = rng.choice(un)
+            return join_rec(r), "add:%s:copy" % r[0]
     for _ in range(8):
         rt = wchoice(rng, w)
         ids = m.ids()
@@ -828,6 +860,14 @@ def gen_fail(rng, m, prof):
             return ["rename", a, b], "fail:rename-existing:%s/%s" % (ra, rb)
         if k == "rm-missing":
             return ["rm", rng.choice(MISSING)], "fail:rm-missing"
+        if k == "rename-placeholder":
+            # optional (no weight by default): a line is renamed to an identifier that is mentioned by some line but
+            # not defined (the Gfa holds a placeholder for it)
+            ph = sorted(m.mentioned() - set(ids) - {"*"})
+            if not ph or not ids:
+                continue
+            a = rng.choice(sorted(ids)); b = rng.choice(ph)
+            return ["rename", a, b], "fail:rename-placeholder:%s" % m.recs[ids[a]][0]
         if k == "header-dt":
             # a header tag defined exactly once gets a second definition of another datatype (refused at vlevel >= 2),
             # next to tags that are fine: nothing of the refused line may stay in the header
@@ -937,6 +977,18 @@ def gen_mutation(rng, m, prof, op):
     if op == "rmline":
         if not rts:
             return None
+        if prof.get("rm_copy") and rng.chance(prof["rm_copy"]):
+            # optional (default off): remove, by instance, one of several lines with the same text
+            seen, twins = {}, []
+            for r in m.recs:
+                k = (r[0], norm_rec(r, m.v))
+                seen[k] = seen.get(k, 0) + 1
+            for rt in rts:
+                rs = [r for r in m.recs if r[0] == rt]
+                twins += [(rt, j) for j, r in enumerate(rs) if seen[(rt, norm_rec(r, m.v))] > 1]
+            if twins:
+                rt, j = rng.choice(twins)
+                return ["rmline", rt, j], "rmline:%s:copy" % rt
         rt = rng.choice(rts)
         return ["rmline", rt, rng.randrange(m.count(rt))], "rmline:" + rt
     if op == "disconnect":
@@ -945,6 +997,17 @@ def gen_mutation(rng, m, prof, op):
             return None
         i = m.find(t)
         return ["disconnect", t], "disconnect:" + m.recs[i][0]
+    if op == "dropid":
+        # optional (no weight by default): a line loses its identifier while connected - the ID tag of an L/C line is
+        # deleted (three spellings), the name of an E/G/O/U line is set to the placeholder
+        c = [n for n in named if m.recs[ids[n]][0] in "LCEGOU"]
+        if not c:
+            return None
+        n = rng.choice(c)
+        rt = m.recs[ids[n]][0]
+        if rt in "LC":
+            return rng.choice([["deltag", n, "ID"], ["settag", n, "ID", None], ["setfield", n, "name", None]]), "dropid:" + rt
+        return ["rename", n, "*"], "dropid:" + rt
     if op == "rename":
         if not named:
             return None
